@@ -28,13 +28,13 @@ Proof.
   - intros [H|[H _]]; auto.
   - intros [H|H]; auto. destruct (Pos.eqb x y) eqn:E.
     + apply Pos.eqb_eq in E. left. symmetry. exact E.
-    + right. split; [exact H|]. rewrite E. reflexivity.
+    + right. split; [exact H|]. reflexivity.
 Qed.
 
 Lemma NoDup_dedup l : NoDup (dedup l).
 Proof.
   induction l as [|y tl IH]; cbn [dedup]; constructor.
-  - rewrite filter_In. intros [_ H]. rewrite Pos.eqb_refl in H. discriminate.
+  - rewrite filter_In. intros [_ H]. cbv beta in H. rewrite Pos.eqb_refl in H. discriminate.
   - apply NoDup_filter. exact IH.
 Qed.
 
@@ -42,8 +42,8 @@ Lemma last_app_nonnil {A} (l1 l2 : list A) d : l2 <> [] -> last (l1 ++ l2) d = l
 Proof.
   intro H. induction l1 as [|a tl IH]; [reflexivity|].
   cbn [app]. destruct (tl ++ l2) eqn:E.
-  - destruct tl; destruct l2; try discriminate; congruence.
-  - cbn [last]. rewrite <- E. exact IH.
+  - apply app_eq_nil in E. destruct E as [_ E]. contradiction.
+  - exact IH.
 Qed.
 
 Lemma alookup_none_notin {A} (l : list (id * A)) x : alookup l x = None <-> ~ In x (map fst l).
@@ -164,13 +164,40 @@ Section Sound.
     - intros x0 e0 Hin y Hy Hyin. apply (Hind x0 e0 (or_intror Hin) y Hy). right. exact Hyin.
   Qed.
 
+  (* ---- unfolding equations of the reference semantics (the mutual fixpoint does not refold) -- *)
+  Lemma nm_stmt_assign r x e : nm_stmt fi r (NAssign x e) = Some (assign fi r x e).
+  Proof. reflexivity. Qed.
+  Lemma nm_stmt_if r c x e :
+    nm_stmt fi r (NIf c x e) =
+    match evalc r fi c with None => None | Some true => Some (assign fi r x e) | Some false => Some r end.
+  Proof. reflexivity. Qed.
+  Lemma nm_stmt_block r brs els :
+    nm_stmt fi r (NBlock brs els) =
+    match nm_branches fi r brs with Some res => res | None => nm_body fi r els end.
+  Proof. reflexivity. Qed.
+  Lemma nm_body_nil r : nm_body fi r BNil = Some r.
+  Proof. reflexivity. Qed.
+  Lemma nm_body_cons r s tl :
+    nm_body fi r (BCons s tl) = match nm_stmt fi r s with None => None | Some r' => nm_body fi r' tl end.
+  Proof. reflexivity. Qed.
+  Lemma nm_branches_nil r : nm_branches fi r BrNil = None.
+  Proof. reflexivity. Qed.
+  Lemma nm_branches_cons r c b tl :
+    nm_branches fi r (BrCons c b tl) =
+    match evalc r fi c with
+    | None => Some None
+    | Some true => Some (nm_body fi r b)
+    | Some false => nm_branches fi r tl
+    end.
+  Proof. reflexivity. Qed.
+
   (* ---- flat bodies --------------------------------------------------------------------------- *)
   Lemma flat_body_nm b : forall r,
     flat_body b = true -> nm_body fi r b = Some (exec_assigns r (body_assigns b)).
   Proof.
     induction b as [|s tl IH]; intros r H; [reflexivity|].
     destruct s as [x e|c x e|brs els]; cbn [flat_body] in H; try discriminate.
-    cbn [nm_body nm_stmt body_assigns]. rewrite (IH _ H). reflexivity.
+    rewrite nm_body_cons, nm_stmt_assign. cbn [body_assigns]. rewrite (IH _ H). reflexivity.
   Qed.
 
   Lemma flat_assigned b : flat_body b = true -> assigned_body b = map fst (body_assigns b).
@@ -212,7 +239,7 @@ Section Sound.
   Proof.
     induction brs as [|c b tl IH]; intros r X H; [reflexivity|].
     cbn [flat_branches] in H. apply andb_true_iff in H. destruct H as [Hb Htl].
-    cbn [nm_branches branch_list map app blocks_pick some_block fst snd].
+    rewrite nm_branches_cons. cbn [branch_list map app blocks_pick some_block fst snd].
     destruct (evalc r fi c) as [[|]|] eqn:Ec.
     - rewrite (flat_body_nm b r Hb). eexists. split; reflexivity.
     - apply IH. exact Htl.
@@ -224,7 +251,7 @@ Section Sound.
   Proof.
     destruct brs as [|c' b tl]; cbn [branch_list]; [discriminate|].
     intro H. injection H as H1 H2 H3. destruct tl; [|discriminate].
-    exists b. subst. split; reflexivity.
+    exists b. subst. split; [reflexivity|exact H2].
   Qed.
 
   Lemma nm_block_pick brs els r r' :
@@ -232,10 +259,10 @@ Section Sound.
     nm_stmt fi r (NBlock brs els) = Some r' ->
     exists o, blocks_pick r (blocks_of brs els) = Some o /\ r' = run_pick r o.
   Proof.
-    intros Hf He Hnm. cbn [nm_stmt] in Hnm.
+    intros Hf He Hnm. rewrite nm_stmt_block in Hnm.
     unfold blocks_of. fold some_block.
     destruct (is_bnil els) eqn:Enil.
-    - destruct els; [|discriminate]. cbn [nm_body] in Hnm.
+    - destruct els; [|discriminate]. rewrite nm_body_nil in Hnm.
       pose proof (nm_branches_pick brs r [] Hf) as P. rewrite app_nil_r in P.
       destruct (nm_branches fi r brs) as [[r1|]|].
       + destruct P as [a [P1 P2]]. injection Hnm as Hnm. subst. exists (Some a). split; [exact P1|reflexivity].
@@ -248,13 +275,13 @@ Section Sound.
       + discriminate.
       + rewrite (flat_body_nm els r He) in Hnm. injection Hnm as Hnm.
         exists (Some (body_assigns els)). split; [|subst; reflexivity].
-        rewrite P. unfold X. cbn [blocks_pick fst snd].
+        transitivity (blocks_pick r X); [exact P|]. unfold X. cbn [blocks_pick fst snd].
         destruct (else_logic (branch_list brs)) as [c'|] eqn:El; [|reflexivity].
         unfold else_logic in El.
-        destruct (branch_list brs) as [|[c l] [|]] eqn:Ebl; try discriminate.
-        destruct l; [|discriminate]. injection El as El. subst c'.
+        destruct (branch_list brs) as [|[c l] rest] eqn:Ebl; [discriminate|].
+        destruct l; [|discriminate]. destruct rest; [|discriminate]. injection El as El. subst c'.
         destruct (branch_list_single brs c Ebl) as [b [Hb1 Hb2]]. subst brs.
-        cbn [nm_branches] in Enb. cbn [evalc].
+        rewrite nm_branches_cons, nm_branches_nil in Enb. cbn [evalc].
         destruct (evalc r fi c) as [[|]|]; try discriminate. reflexivity.
   Qed.
 
@@ -267,19 +294,11 @@ Section Sound.
     map (fun a => (snd a, fst b)) (filter (fun a => Pos.eqb (fst a) x) (snd b)) ++ pairs_of x tl.
   Proof. reflexivity. Qed.
 
-  Lemma pairs_of_nil x B : ~ In x (lhs_all B) -> pairs_of x B = [].
-  Proof.
-    induction B as [|b tl IH]; intro H; [reflexivity|].
-    rewrite pairs_of_cons. unfold lhs_all in H. cbn [flat_map] in H. rewrite in_app_iff in H.
-    rewrite IH by (intro Hc; apply H; right; exact Hc).
-    rewrite app_nil_r.
-    replace (filter (fun a => Pos.eqb (fst a) x) (snd b)) with (@nil asg); [reflexivity|].
-    symmetry. apply (proj2 (forallb_filter_nil _ _)). Abort.
-
   Lemma filter_notin (l : list asg) x : ~ In x (map fst l) -> filter (fun a => Pos.eqb (fst a) x) l = [].
   Proof.
     induction l as [|a tl IH]; intro H; [reflexivity|].
-    cbn [filter]. cbn [map In] in H. destruct (Pos.eqb (fst a) x) eqn:E.
+    cbn [filter]. cbn [map In] in H.
+    match goal with |- context [Pos.eqb ?u x] => destruct (Pos.eqb u x) eqn:E end.
     - apply Pos.eqb_eq in E. exfalso. apply H. left. exact E.
     - apply IH. intro Hc. apply H. right. exact Hc.
   Qed.
@@ -299,7 +318,7 @@ Section Sound.
     destruct H as [H|H].
     - apply in_map_iff in H. destruct H as [a [Ha1 Ha2]].
       assert (Hin : In a (filter (fun a0 => Pos.eqb (fst a0) x) (snd b))).
-      { apply filter_In. split; [exact Ha2|]. rewrite Ha1. apply Pos.eqb_refl. }
+      { apply filter_In. split; [exact Ha2|]. apply Pos.eqb_eq. exact Ha1. }
       destruct (filter (fun a0 => Pos.eqb (fst a0) x) (snd b)); [destruct Hin|]. cbn [map app]. discriminate.
     - intro Hc. apply app_eq_nil in Hc. destruct Hc as [_ Hc]. exact (IH H Hc).
   Qed.
@@ -310,7 +329,7 @@ Section Sound.
     | None => eval r fi d
     end.
 
-  Lemma cover_notin_tl b tl x :
+  Lemma cover_notin_tl (b : block) (tl : list block) x :
     forallb (fun y => memp y (map fst (snd b))) (lhs_all tl) = true ->
     ~ In x (map fst (snd b)) -> ~ In x (lhs_all tl).
   Proof.
@@ -326,7 +345,7 @@ Section Sound.
     - cbn in Hp. injection Hp as Hp. subst. reflexivity.
     - cbn [once_blocks forallb] in Ho. apply andb_true_iff in Ho. destruct Ho as [Ho1 Ho2].
       cbn [cover_blocks] in Hc. apply andb_true_iff in Hc. destruct Hc as [Hc1 Hc2].
-      rewrite pairs_of_cons, pw_chain_app. rewrite (filter_key_nodup _ x Ho1).
+      rewrite pairs_of_cons, pw_chain_app. rewrite (filter_key_nodup (snd b) x Ho1).
       cbn [blocks_pick] in Hp.
       assert (Hsel : forall c, evalc r fi c = Some true \/ c = CTrue -> lg_cond (fst b) = c ->
                      eval r fi (pw_chain (map (fun a => (snd a, fst b))
@@ -541,7 +560,7 @@ Section Sound.
     rewrite exec_indep.
     - unfold l. rewrite alookup_map_key. rewrite (run_pick_value B r o Ho Hf Hp).
       destruct (memp v (block_syms B)) eqn:Em.
-      + apply memp_In in Em. unfold block_syms in Em. apply In_dedup in Em.
+      + apply memp_In in Em. unfold block_syms in Em. apply (proj1 (In_dedup _ _)) in Em.
         apply (pw_of_value B defd r o v Ho Hc Hp). apply Hr. exact Em.
       + destruct o as [a|]; [|reflexivity].
         destruct (alookup a v) as [e|] eqn:Ea; [|reflexivity]. exfalso.
@@ -557,10 +576,10 @@ Section Sound.
           destruct Hab as [b [Hb Hab]]. rewrite <- Hab in Ea.
           exact (In_lhs_all B b (v, e) Hb Ea). }
         assert (Hm : memp v (block_syms B) = true).
-        { apply memp_In. unfold block_syms. apply In_dedup. exact Hin. }
+        { apply memp_In. unfold block_syms. apply (proj2 (In_dedup _ _)). exact Hin. }
         congruence.
     - rewrite Hfst. apply NoDup_dedup.
-    - intros x e Hin y Hy Hyin. rewrite Hfst in Hyin. unfold block_syms in Hyin. apply In_dedup in Hyin.
+    - intros x e Hin y Hy Hyin. rewrite Hfst in Hyin. unfold block_syms in Hyin. apply (proj1 (In_dedup _ _)) in Hyin.
       unfold l in Hin. apply in_map_iff in Hin. destruct Hin as [x0 [Hx0 _]]. injection Hx0 as Hx1 Hx2. subst x0 e.
       exact (fresh_pw_of B defd x y Hf Hy Hyin).
   Qed.
@@ -620,8 +639,8 @@ Section Sound.
     special brs || cover_blocks (blocks_of brs els) = true -> CoverOK (blocks_of brs els).
   Proof.
     intro H. apply orb_true_iff in H. destruct H as [H|H]; [|left; exact H].
-    unfold special in H. destruct (branch_list brs) as [|[c l] [|]] eqn:Ebl; try discriminate.
-    destruct l; [|discriminate].
+    unfold special in H. destruct (branch_list brs) as [|[c l] rest] eqn:Ebl; [discriminate|].
+    destruct l; [|discriminate]. destruct rest; [|discriminate].
     unfold blocks_of. rewrite Ebl. cbn [map fst snd else_logic].
     destruct (is_bnil els).
     - left. reflexivity.
@@ -635,15 +654,18 @@ Section Sound.
     ext_eq (exec fi ode r (translate_stmt defd s)) r1.
   Proof.
     intros Hg Hr Hnm. destruct s as [x e|c x e|brs els].
-    - cbn in Hnm. injection Hnm as Hnm. subst. intro v. reflexivity.
-    - cbn [nm_stmt] in Hnm. cbn [translate_stmt exec exec1 eval].
+    - rewrite nm_stmt_assign in Hnm. injection Hnm as Hnm. subst. intro v. reflexivity.
+    - rewrite nm_stmt_if in Hnm. cbn [translate_stmt exec exec1 eval].
       destruct (evalc r fi c) as [[|]|] eqn:Ec; try discriminate; injection Hnm as Hnm; subst r1; cbn [obind].
       + intro v. reflexivity.
       + intro v. rewrite else_val_eval by (apply Hr; left; reflexivity).
         unfold upd. destruct (Pos.eqb v x) eqn:E; [|reflexivity]. apply Pos.eqb_eq in E. subst. reflexivity.
-    - unfold guard_stmt in Hg. repeat (apply andb_true_iff in Hg; destruct Hg as [Hg ?]).
+    - unfold guard_stmt in Hg.
+      apply andb_true_iff in Hg. destruct Hg as [Hg Hcov].
+      apply andb_true_iff in Hg. destruct Hg as [Hg Hfr].
+      apply andb_true_iff in Hg. destruct Hg as [Hfl Hon].
       cbn [g_flat_stmt g_once_stmt g_fresh_stmt g_cover_stmt] in *.
-      apply andb_true_iff in Hg. destruct Hg as [Hf He].
+      apply andb_true_iff in Hfl. destruct Hfl as [Hf He].
       destruct (nm_block_pick brs els r r1 Hf He Hnm) as [o [Hp Hr1]]. subst r1.
       cbn [translate_stmt]. apply block_sound; try assumption.
       + apply cover_ok_of_guard. assumption.
@@ -657,7 +679,7 @@ Section Sound.
     - cbn in *. destruct Hx as [Hx|[]]. left. exact Hx.
     - cbn in *. destruct Hx as [Hx|[]]. left. exact Hx.
     - cbn [g_flat_stmt] in Hg. apply andb_true_iff in Hg. destruct Hg as [Hf He].
-      cbn [translate_stmt]. rewrite lhs_of_block_stmts. unfold block_syms. apply In_dedup.
+      cbn [translate_stmt]. rewrite lhs_of_block_stmts. unfold block_syms. apply (proj2 (In_dedup _ _)).
       apply assigned_in_blocks; assumption.
   Qed.
 
@@ -665,9 +687,9 @@ Section Sound.
     g_flat_stmt s = true -> nm_stmt fi r s = Some r1 -> ~ In v (assigned_stmt s) -> r1 v = r v.
   Proof.
     intros Hg Hnm Hv. destruct s as [x e|c x e|brs els].
-    - cbn in *. injection Hnm as Hnm. subst. unfold assign, upd.
+    - rewrite nm_stmt_assign in Hnm. cbn [assigned_stmt] in Hv. injection Hnm as Hnm. subst. unfold assign, upd.
       destruct (Pos.eqb v x) eqn:E; [|reflexivity]. apply Pos.eqb_eq in E. exfalso. apply Hv. left. symmetry. exact E.
-    - cbn [nm_stmt assigned_stmt] in *. destruct (evalc r fi c) as [[|]|]; try discriminate; injection Hnm as Hnm; subst; [|reflexivity].
+    - rewrite nm_stmt_if in Hnm. cbn [assigned_stmt] in Hv. destruct (evalc r fi c) as [[|]|]; try discriminate; injection Hnm as Hnm; subst; [|reflexivity].
       unfold assign, upd. destruct (Pos.eqb v x) eqn:E; [|reflexivity]. apply Pos.eqb_eq in E. exfalso. apply Hv. left. symmetry. exact E.
     - cbn [g_flat_stmt] in Hg. apply andb_true_iff in Hg. destruct Hg as [Hf He].
       destruct (nm_block_pick brs els r r1 Hf He Hnm) as [o [Hp Hr1]]. subst r1.
@@ -694,7 +716,7 @@ Section Sound.
     induction p as [|s tl IH]; intros defd r r' Hg Hr Hnm.
     - cbn in *. injection Hnm as Hnm. subst. apply ext_eq_refl.
     - cbn [forall_body] in Hg. apply andb_true_iff in Hg. destruct Hg as [Hgs Hgt].
-      cbn [nm_body] in Hnm. destruct (nm_stmt fi r s) as [r1|] eqn:Es; [|discriminate].
+      rewrite nm_body_cons in Hnm. destruct (nm_stmt fi r s) as [r1|] eqn:Es; [|discriminate].
       cbn [translate_from]. rewrite exec_app.
       assert (Hflat : g_flat_stmt s = true).
       { unfold guard_stmt in Hgs. repeat (apply andb_true_iff in Hgs; destruct Hgs as [Hgs ?]). exact Hgs. }
@@ -732,3 +754,144 @@ Section Sound.
     - exact Hnm.
   Qed.
 End Sound.
+
+(* ---- targets of the translation ------------------------------------------------------------ *)
+Lemma lhs_of_app l1 l2 : lhs_of (l1 ++ l2) = lhs_of l1 ++ lhs_of l2.
+Proof. unfold lhs_of. apply flat_map_app. Qed.
+
+Lemma lhs_translate_stmt_sub defd s x : In x (lhs_of (translate_stmt defd s)) -> In x (assigned_stmt s).
+Proof.
+  destruct s as [y e|c y e|brs els].
+  - cbn. tauto.
+  - cbn. tauto.
+  - cbn [translate_stmt]. rewrite lhs_of_block_stmts. unfold block_syms. intro H.
+    apply (proj1 (In_dedup _ _)) in H.
+    change (assigned_stmt (NBlock brs els)) with (assigned_branches brs ++ assigned_body els).
+    apply lhs_blocks_of. exact H.
+Qed.
+
+Lemma translate_from_targets p : forall defd x,
+  In x (lhs_of (translate_from defd p)) -> In x (assigned_body p).
+Proof.
+  induction p as [|s tl IH]; intros defd x H; [destruct H|].
+  cbn [translate_from] in H. rewrite lhs_of_app, in_app_iff in H.
+  change (assigned_body (BCons s tl)) with (assigned_stmt s ++ assigned_body tl).
+  apply in_or_app. destruct H as [H|H].
+  - left. exact (lhs_translate_stmt_sub defd s x H).
+  - right. exact (IH _ x H).
+Qed.
+
+Lemma translate_targets_lemma p x : In x (lhs_of (translate p)) -> In x (assigned_body p).
+Proof. apply translate_from_targets. Qed.
+
+Lemma translate_from_targets_complete p : forall defd x,
+  g_flat p = true -> In x (assigned_body p) -> In x (lhs_of (translate_from defd p)).
+Proof.
+  induction p as [|s tl IH]; intros defd x Hg H; [destruct H|].
+  unfold g_flat in Hg. cbn [forall_body] in Hg. apply andb_true_iff in Hg. destruct Hg as [Hs Ht].
+  change (assigned_body (BCons s tl)) with (assigned_stmt s ++ assigned_body tl) in H.
+  cbn [translate_from]. rewrite lhs_of_app. apply in_or_app. apply in_app_or in H. destruct H as [H|H].
+  - left. apply lhs_translate_stmt; assumption.
+  - right. apply IH; assumption.
+Qed.
+
+Lemma translate_targets_complete_lemma p x :
+  g_flat p = true -> In x (assigned_body p) -> In x (lhs_of (translate p)).
+Proof. apply translate_from_targets_complete. Qed.
+
+(* ---- frame property of the reference semantics (no guard) --------------------------------- *)
+Scheme nmstmt_mut := Induction for nmstmt Sort Prop
+with body_mut := Induction for body Sort Prop
+with branches_mut := Induction for branches Sort Prop.
+Combined Scheme nm_mutind from nmstmt_mut, body_mut, branches_mut.
+
+Lemma nm_frame_all (fi : finterp) :
+  (forall s r r' v, nm_stmt fi r s = Some r' -> ~ In v (assigned_stmt s) -> r' v = r v) /\
+  (forall b r r' v, nm_body fi r b = Some r' -> ~ In v (assigned_body b) -> r' v = r v) /\
+  (forall brs r r' v, nm_branches fi r brs = Some (Some r') -> ~ In v (assigned_branches brs) -> r' v = r v).
+Proof.
+  apply nm_mutind.
+  - intros x e r r' v H Hv. rewrite nm_stmt_assign in H. injection H as H. subst.
+    unfold assign, upd. destruct (Pos.eqb v x) eqn:E; [|reflexivity].
+    apply Pos.eqb_eq in E. exfalso. apply Hv. left. symmetry. exact E.
+  - intros c x e r r' v H Hv. rewrite nm_stmt_if in H.
+    destruct (evalc r fi c) as [[|]|]; try discriminate; injection H as H; subst; [|reflexivity].
+    unfold assign, upd. destruct (Pos.eqb v x) eqn:E; [|reflexivity].
+    apply Pos.eqb_eq in E. exfalso. apply Hv. left. symmetry. exact E.
+  - intros brs IHb els IHe r r' v H Hv. rewrite nm_stmt_block in H.
+    change (assigned_stmt (NBlock brs els)) with (assigned_branches brs ++ assigned_body els) in Hv.
+    destruct (nm_branches fi r brs) as [[r1|]|] eqn:En.
+    + injection H as H. subst r1. apply (IHb r r' v En). intro Hc. apply Hv. apply in_or_app. left. exact Hc.
+    + discriminate.
+    + apply (IHe r r' v H). intro Hc. apply Hv. apply in_or_app. right. exact Hc.
+  - intros r r' v H _. rewrite nm_body_nil in H. injection H as H. subst. reflexivity.
+  - intros s IHs tl IHt r r' v H Hv. rewrite nm_body_cons in H.
+    change (assigned_body (BCons s tl)) with (assigned_stmt s ++ assigned_body tl) in Hv.
+    destruct (nm_stmt fi r s) as [r1|] eqn:Es; [|discriminate].
+    rewrite (IHt r1 r' v H) by (intro Hc; apply Hv; apply in_or_app; right; exact Hc).
+    apply (IHs r r1 v Es). intro Hc. apply Hv. apply in_or_app. left. exact Hc.
+  - intros r r' v H _. rewrite nm_branches_nil in H. discriminate.
+  - intros c b IHb tl IHt r r' v H Hv. rewrite nm_branches_cons in H.
+    change (assigned_branches (BrCons c b tl)) with (assigned_body b ++ assigned_branches tl) in Hv.
+    destruct (evalc r fi c) as [[|]|]; try discriminate.
+    + injection H as H. apply (IHb r r' v H). intro Hc. apply Hv. apply in_or_app. left. exact Hc.
+    + apply (IHt r r' v H). intro Hc. apply Hv. apply in_or_app. right. exact Hc.
+Qed.
+
+Lemma nm_frame_lemma (fi : finterp) (p : body) (r r' : env) (v : id) :
+  nm_body fi r p = Some r' -> ~ In v (assigned_body p) -> r' v = r v.
+Proof. apply (proj1 (proj2 (nm_frame_all fi))). Qed.
+
+(* ---- the function table: without MOD the interpretation of expressions is the identity ------- *)
+Lemma read_expr_id :
+  (forall e, uses_fn2 F_FMOD e = false -> read_expr e = e) /\
+  (forall c, uses_fn2c F_FMOD c = false -> read_cond c = c).
+Proof.
+  apply expr_cond_mut; intros; cbn [read_expr read_cond uses_fn2 uses_fn2c] in *;
+    repeat match goal with
+           | H : _ || _ = false |- _ => apply orb_false_iff in H; destruct H
+           end;
+    repeat match goal with
+           | IH : ?P = false -> _ = _, H : ?P = false |- _ => rewrite (IH H); clear IH
+           end; try reflexivity.
+  unfold read_fn2. rewrite H1. reflexivity.
+Qed.
+
+Lemma read_body_id_all :
+  (forall s, mod_free_stmt s = true -> read_stmt s = s) /\
+  (forall b, mod_free_body b = true -> read_body b = b) /\
+  (forall brs, mod_free_branches brs = true -> read_branches brs = brs).
+Proof.
+  pose proof (proj1 read_expr_id) as He. pose proof (proj2 read_expr_id) as Hc.
+  apply nm_mutind.
+  - intros x e H. change (negb (uses_fn2 F_FMOD e) = true) in H. apply negb_true_iff in H.
+    change (NAssign x (read_expr e) = NAssign x e). rewrite (He e H). reflexivity.
+  - intros c x e H. change (negb (uses_fn2c F_FMOD c) && negb (uses_fn2 F_FMOD e) = true) in H.
+    apply andb_true_iff in H. destruct H as [H1 H2]. apply negb_true_iff in H1, H2.
+    change (NIf (read_cond c) x (read_expr e) = NIf c x e). rewrite (Hc c H1), (He e H2). reflexivity.
+  - intros brs IHb els IHe H. change (mod_free_branches brs && mod_free_body els = true) in H.
+    apply andb_true_iff in H. destruct H as [H1 H2].
+    change (NBlock (read_branches brs) (read_body els) = NBlock brs els). rewrite (IHb H1), (IHe H2). reflexivity.
+  - reflexivity.
+  - intros s IHs tl IHt H. change (mod_free_stmt s && mod_free_body tl = true) in H.
+    apply andb_true_iff in H. destruct H as [H1 H2].
+    change (BCons (read_stmt s) (read_body tl) = BCons s tl). rewrite (IHs H1), (IHt H2). reflexivity.
+  - reflexivity.
+  - intros c b IHb tl IHt H.
+    change (negb (uses_fn2c F_FMOD c) && mod_free_body b && mod_free_branches tl = true) in H.
+    apply andb_true_iff in H. destruct H as [H H3]. apply andb_true_iff in H. destruct H as [H1 H2].
+    apply negb_true_iff in H1.
+    change (BrCons (read_cond c) (read_body b) (read_branches tl) = BrCons c b tl).
+    rewrite (Hc c H1), (IHb H2), (IHt H3). reflexivity.
+Qed.
+
+Lemma read_body_id p : g_no_mod p = true -> read_body p = p.
+Proof. apply (proj1 (proj2 read_body_id_all)). Qed.
+
+Lemma read_code_sound_lemma fi ode p r r' :
+  guard_code p = true -> g_no_mod p = true -> fresh_env r p -> nm_body fi r p = Some r' ->
+  forall v, exec fi ode r (read_code p) v = r' v.
+Proof.
+  intros Hg Hm Hf Hnm. unfold read_code. rewrite (read_body_id p Hm).
+  apply (translate_sound_lemma fi ode p r r' Hg Hf Hnm).
+Qed.
